@@ -62,8 +62,18 @@ def gen_program(rng):
     L = ["\tcpu %s" % cpu, "\torg %d" % rng.choice([0, 256, 32768])]
     L += ["m1\tmacro a,b", "\t%s a,b" % db, "\tendm", "v1\tequ %d" % rng.randint(1, 100), "v2\tset v1+100"]
     for i in range(rng.randint(3, 25)):
-        k = rng.below(7)
-        if k == 0:
+        k = rng.below(9)
+        if k == 7:
+            # conditional assembly on the assembler's own bookkeeping (usage / definition flags, which the cross
+            # reference, usage and symbol reports also read), placed before or after the first reference
+            sym = rng.choice(["v1", "v2", "l%d" % rng.randint(0, 30), "u%d" % i])
+            L.append("u%d\tequ %d" % (i, i))
+            L.append("\t%s %s\n\t%s %d\n\telse\n\t%s %d,%d\n\tendif" % (rng.choice(["ifused", "ifnused", "ifdef", "ifndef"]), sym, db, rng.below(256), db, rng.below(256), rng.below(256)))
+            if rng.chance(0.5):
+                L.append("\t%s u%d" % (dw, i))
+        elif k == 8:
+            L.append("\t%s symtype(v1),symtype(l%d),defined(l%d)" % (db, rng.randint(0, 30), rng.randint(0, 30)))
+        elif k == 0:
             L.append("l%d:\t%s %d,%d" % (i, db, rng.below(256), rng.below(256)))
         elif k == 1:
             L.append("\t%s l%d" % (dw, rng.randint(0, 30)) if rng.chance(0.5) else "\t%s v1+%d" % (dw, i))
